@@ -128,6 +128,8 @@ class ExecBase:
                 return const_to_val(slot.obj)
             except TypeError:
                 return Val("o", z3.IntVal(abs(hash(slot.origin)) % 10**9), meta="const")
+        if isinstance(slot, Exc):
+            return Val("o", z3.IntVal(abs(hash(id(slot))) % 10**9), meta="exception")
         if isinstance(slot, (FuncRef, ClassRef, ModuleRef, ExtRef, Builtin, BoundMethod, Lam)):
             return Val("o", z3.IntVal(abs(hash(repr(slot))) % 10**9), meta="callable")
         self.oos(f"cannot coerce {slot!r} to a value", node)
